@@ -4,7 +4,9 @@
       trait  ∈ display debug binary octal lower_hex upper_hex lower_exp upper_exp
       flags  = 5 characters `[align][fill][sign][alt][zero]`
                align ∈ n (none) l (`<`) c (`^`) r (`>`)
-               fill  ∈ d (default `' '`) s (`'*'`; only used when align ≠ n)
+               fill  ∈ d (default `' '`) s (`'*'`) u (`'€'`, 3 bytes) o (`'0'`) e (`'é'`, 2 bytes)
+                       g (`'𝄞'`, 4 bytes); only used when align ≠ n.  The fill is carried as the UTF-8
+                       bytes of the `char`; `pad_integral` counts the width in chars
                sign  ∈ p (`+`) -        alt ∈ a (`#`) -        zero ∈ z (`0`) -
       width  = decimal, or `-` for none
       a      = hex pattern
@@ -35,7 +37,10 @@ def parseFlags (s : String) (width : Nat) : Option Flags :=
     let align ← (match al with
       | 'n' => some none | 'l' => some (some Align.left) | 'c' => some (some Align.center)
       | 'r' => some (some Align.right) | _ => none : Option (Option Align))
-    let fill ← (match fi with | 'd' => some [32] | 's' => some [42] | _ => none : Option (List Nat))
+    let fill ← (match fi with
+      | 'd' => some [32] | 's' => some [42] | 'o' => some [48]
+      | 'e' => some [0xc3, 0xa9] | 'u' => some [0xe2, 0x82, 0xac] | 'g' => some [0xf0, 0x9d, 0x84, 0x9e]
+      | _ => none : Option (List Nat))
     let plus ← (match sg with | 'p' => some true | '-' => some false | _ => none : Option Bool)
     let alt ← (match alt with | 'a' => some true | '-' => some false | _ => none : Option Bool)
     let zero ← (match z with | 'z' => some true | '-' => some false | _ => none : Option Bool)
